@@ -104,10 +104,6 @@ Proof.
     rewrite (IH gs Fr eq_refl). now rewrite <- (Fe _ _ L S).
 Qed.
 
-Definition geometry_elems (root : et) : list et :=
-  List.filter (fun g => match efind a_mesh g with Some _ => true | None => false end)
-              (lib_elems a_library_geometries a_geometry root).
-
 Ltac step H :=
   match type of H with
   | omap _ (obind ?x _) = Ok _ => destruct x eqn:?; [cbn [obind] in H |- * | discriminate H]
@@ -118,7 +114,6 @@ Theorem load_doc_is_read : forall numtab root v,
   load_doc numtab root = Ok v -> read_doc numtab root = Ok v.
 Proof.
   intros numtab root v F H. unfold load_doc, read_doc, load_document in *. cbv zeta in *.
-  fold (geometry_elems root) in *.
   step H. step H. step H. step H.
   (* geometries *)
   destruct (omapM (load_geometry numtab) (geometry_elems root)) as [geoms|] eqn:G; [|discriminate H].
@@ -132,4 +127,91 @@ Proof.
   rewrite (omapM_ext _ _ _ (load_scene_ext read_node_loader load_node read_node_loader_eq _)).
   step H. step H.
   rewrite map_map. rewrite (map_ext _ _ Vgeom_erase). exact H.
+Qed.
+
+(* ------------------------------------------------------------------ the guard as a computation *)
+
+Lemma list_eqb_sound {A} (e : A -> A -> bool) : (forall x y, e x y = true -> x = y) ->
+  forall a b, list_eqb e a b = true -> a = b.
+Proof.
+  intros He. induction a as [|x a IH]; intros [|y b] H; simpl in H; try discriminate; [reflexivity|].
+  apply andb_true_iff in H. destruct H as [H1 H2]. now rewrite (He _ _ H1), (IH _ H2).
+Qed.
+
+Lemma aval_eqb_sound : forall a b, aval_eqb a b = true -> a = b.
+Proof.
+  intros [x|h x|z] [y|g y|w] H; simpl in H; try discriminate.
+  - apply N.eqb_eq in H. now subst.
+  - apply andb_true_iff in H. destruct H as [H1 H2]. apply N.eqb_eq in H2. apply Bool.eqb_prop in H1. now subst.
+  - apply Z.eqb_eq in H. now subst.
+Qed.
+
+Lemma tok_eqb_sound : forall a b, tok_eqb a b = true -> a = b.
+Proof.
+  intros [x|x|x] [y|y|y] H; simpl in H; try discriminate;
+    [apply Z.eqb_eq in H | apply N.eqb_eq in H | apply N.eqb_eq in H]; now subst.
+Qed.
+
+Lemma opt_eqb_sound {A} (e : A -> A -> bool) : (forall x y, e x y = true -> x = y) ->
+  forall a b, opt_eqb e a b = true -> a = b.
+Proof. intros He [x|] [y|] H; simpl in H; try discriminate; [now rewrite (He _ _ H)|reflexivity]. Qed.
+
+Lemma source_view_eqb_sound : forall a b, source_view_eqb a b = true -> a = b.
+Proof.
+  intros [u1 i1 k1 c1 r1 d1] [u2 i2 k2 c2 r2 d2] H. unfold source_view_eqb in H. simpl in H.
+  repeat (apply andb_true_iff in H; destruct H as [H ?]).
+  apply N.eqb_eq in H. apply (opt_eqb_sound _ aval_eqb_sound) in H4. apply N.eqb_eq in H3.
+  apply (list_eqb_sound _ (opt_eqb_sound _ aval_eqb_sound)) in H2. apply Nat.eqb_eq in H1.
+  assert (d1 = d2).
+  { destruct d1 as [x|x], d2 as [y|y]; simpl in H0; try discriminate; f_equal.
+    - apply (list_eqb_sound N.eqb); [intros ? ? E; now apply N.eqb_eq|exact H0].
+    - now apply (list_eqb_sound _ tok_eqb_sound). }
+  now subst.
+Qed.
+
+Lemma geom_fits_sound : forall numtab e, geom_fits numtab e = true -> names_fit numtab e.
+Proof.
+  intros numtab e H g srcs L S. unfold geom_fits in H. rewrite L, S in H.
+  now apply (list_eqb_sound _ source_view_eqb_sound).
+Qed.
+
+(* C05_load_is_read under the boolean guard *)
+Theorem load_doc_is_read_guard : forall numtab root v,
+  forallb (geom_fits numtab) (geometry_elems root) = true ->
+  load_doc numtab root = Ok v -> read_doc numtab root = Ok v.
+Proof.
+  intros numtab root v G. apply load_doc_is_read. rewrite forallb_forall in G.
+  apply Forall_forall. intros e He. apply geom_fits_sound. now apply G.
+Qed.
+
+(* when checkSource renames: one call rewrites exactly the sources with that uid whose component tuple has
+   the expected LENGTH, to the expected names; the list is unchanged iff they carried those names already *)
+Definition renamed (u : N) (expected : list (option aval)) (s : source_view) : source_view :=
+  if N.eqb (s_uid s) u then mkSV (s_uid s) (s_id s) (s_kind s) expected (s_rows s) (s_data s) else s.
+
+Lemma apply_check_spec : forall srcs u comps mx srcs',
+  apply_check srcs (u, comps, mx) = Ok srcs' ->
+  srcs' = map (renamed u (map nm comps)) srcs /\
+  (srcs' = srcs <-> forall s, In s srcs -> s_uid s = u -> s_comps s = map nm comps).
+Proof.
+  intros srcs u comps mx. unfold apply_check. set (expected := map nm comps).
+  induction srcs as [|s srcs IH]; intros srcs' H.
+  - injection H as <-. split; [reflexivity|]. split; [intros _ s []|reflexivity].
+  - cbn [map] in *. unfold renamed at 1.
+    destruct (N.eqb (s_uid s) u) eqn:E.
+    + destruct (Z.of_nat (s_rows s) <=? mx)%Z; [discriminate|].
+      destruct (Nat.eqb (length (s_comps s)) (length expected)); [|discriminate].
+      match type of H with omap _ ?x = _ => destruct x as [r|] eqn:R; [|discriminate] end.
+      injection H as <-. destruct (IH _ eq_refl) as [-> IFF]. split; [reflexivity|].
+      apply N.eqb_eq in E. split.
+      * intros Q s0 [<-|I] U; [injection Q as Q1 Q2; destruct s; simpl in *; congruence|].
+        injection Q as _ Q2. apply (proj1 IFF Q2); assumption.
+      * intro A. f_equal.
+        -- destruct s as [a b c d e0 f]. simpl in *. f_equal. symmetry. apply (A _ (or_introl eq_refl) E).
+        -- apply (proj2 IFF). intros s0 I U. apply A; [now right|exact U].
+    + match type of H with omap _ ?x = _ => destruct x as [r|] eqn:R; [|discriminate] end.
+      injection H as <-. destruct (IH _ eq_refl) as [-> IFF]. split; [reflexivity|].
+      apply N.eqb_neq in E. split.
+      * intros Q s0 [<-|I] U; [contradiction|]. injection Q as Q2. apply (proj1 IFF Q2); assumption.
+      * intro A. f_equal. apply (proj2 IFF). intros s0 I U. apply A; [now right|exact U].
 Qed.
